@@ -42,7 +42,7 @@ def Cls(inv: Sequence[int] = (), oncall: Optional[Sequence[int]] = None, onset: 
             "slots": slots, "repr": 0, "base": 0}
 
 
-NOFAULT = {"at": 0, "kind": "", "n": 0}
+NOFAULT = {"at": 0, "kind": "", "n": 0, "more": []}
 
 
 def Prog(fn: list, con: list, snp: list = (), cls: list = (), obj: list = (), drv: list = (), fault: dict = NOFAULT,
@@ -481,3 +481,92 @@ def fam_inv_sub(tier: str, rng: random.Random) -> Iterator[dict]:
                         drv = [Op("call", ctor, 1, 1)] + [Op("call", m, 1, a) for m, a in ops]
                         yield Prog([dict(f) for f in fns], [dict(c) for c in cons], [], [dict(c1), dict(c2)], obj, [drv],
                                    tag="inv-sub")
+
+
+# ------------------------------------------------------------------------------------------------------
+FAULT_KINDS = ["Exception", "KI", "GenExit", "SysExit"]
+
+
+def _fault_bases(tier: str) -> List[Tuple[str, dict]]:
+    """Programs with many different crossings; the first driver call is the one to be faulted."""
+    out = []
+    # plain function: 2 preconditions, snapshot, 2 postconditions; variants of what is falsy
+    for variant in ("alltrue", "pre2-falsy-factory", "post1-falsy-lam", "post2-falsy-class", "pre1-badbool"):
+        for isasync in (False, True):
+            cons = [Con("pre"), Con("pre", "factory"), Con("post", "default", not isasync), Con("post", "class")]
+            if variant == "pre2-falsy-factory":
+                cons[1]["truth"] = [True, False, True]
+            if variant == "post1-falsy-lam":
+                cons[2]["truth"] = [True, False, True]
+            if variant == "post2-falsy-class":
+                cons[3]["truth"] = [True, False, True]
+            if variant == "pre1-badbool":
+                cons[0]["rv"] = "badbool"
+            fns = [Fn("func", 0, isasync, ["chk"], [[1, 2]], [1], [3, 4])]
+            drv = [Op("call", 1, 0, 1), Op("call", 1, 0, 1), Op("call", 1, 0, 2)]
+            out.append(("func-" + variant + ("-async" if isasync else ""), Prog(fns, cons, [Snp(21)], [], [], [drv])))
+    # method of a class with invariants and its own __repr__; the body breaks the invariant
+    for variant in ("sound", "breaks"):
+        for isasync in (False, True):
+            cons = [Con("inv", "default", False, INV_TRUTH), Con("pre"), Con("post")]
+            cls = Cls([1])
+            fns = [Fn("init", 1, False, ["init"], out=[RetV(0)] * 3, setst=1),
+                   Fn("method", 1, isasync, ["inv", "chk"], [[2]], [], [3], setst=2 if variant == "breaks" else 0),
+                   Fn("repr", 1, False, [], out=[RetV(0)] * 3),
+                   Fn("method", 1, False, ["inv"], setst=1)]
+            cls["repr"] = 3
+            drv = [Op("call", 1, 1, 1), Op("call", 2, 1, 1), Op("call", 4, 1, 1), Op("call", 2, 1, 1)]
+            out.append(("method-" + variant + ("-async" if isasync else ""),
+                        Prog(fns, cons, [], [cls], [{"cls": 1, "st0": 0}], [drv])))
+    return out
+
+
+def fam_fault(tier: str, rng: random.Random) -> Iterator[dict]:
+    """C11: a fault of every kind injected at every crossing of a checked call, followed by probe calls."""
+    kmax = 16
+    for name, base in _fault_bases(tier):
+        for k in range(1, kmax + 1):
+            for kind in FAULT_KINDS:
+                p = json_copy(base)
+                p["fault"] = {"at": k, "kind": kind, "n": 0, "more": []}
+                p["tag"] = "fault-{}-k{}-{}".format(name, k, kind)
+                yield p
+        # sequences of two faults
+        pairs = [(k1, k2) for k1 in range(1, 10) for k2 in range(k1 + 1, 14)]
+        if tier != "thorough":
+            pairs = rng.sample(pairs, 12)
+        for k1, k2 in pairs:
+            for kind in ("Exception", "KI"):
+                p = json_copy(base)
+                p["fault"] = {"at": k1, "kind": kind, "n": 0, "more": [k2]}
+                p["tag"] = "fault2-{}-k{}-k{}-{}".format(name, k1, k2, kind)
+                yield p
+
+
+def fam_cancel(tier: str, rng: random.Random) -> Iterator[dict]:
+    """C11: cancellation / closing of an async call at each of its suspension points, then a probe."""
+    aw = [Op("await", 0)]
+    for variant in ("func", "method"):
+        for kind in ("Cancelled", "GenExit", "Exception"):
+            for n in range(1, 8):
+                if variant == "func":
+                    cons = [Con("pre", rv="corofn", script=aw), Con("pre", rv="coro", script=aw),
+                            Con("post", rv="corofn", script=aw)]
+                    fns = [Fn("func", 0, True, ["chk"], [[1, 2]], [1], [3], script=aw + aw)]
+                    snps = [Snp(21, "corofn", aw)]
+                    drv = [Op("call", 1, 0, 1), Op("call", 1, 0, 1)]
+                    p = Prog(fns, cons, snps, [], [], [drv])
+                else:
+                    cons = [Con("inv", "default", False, INV_TRUTH), Con("pre", rv="corofn", script=aw)]
+                    fns = [Fn("init", 1, False, ["init"], out=[RetV(0)] * 3, setst=1),
+                           Fn("method", 1, True, ["inv", "chk"], [[2]], [], [], script=aw + aw)]
+                    drv = [Op("call", 1, 1, 1), Op("call", 2, 1, 1), Op("call", 2, 1, 1)]
+                    p = Prog(fns, cons, [], [Cls([1])], [{"cls": 1, "st0": 0}], [drv])
+                p["fault"] = {"at": -1, "kind": kind, "n": n, "more": []}
+                p["tag"] = "cancel-{}-{}-n{}".format(variant, kind, n)
+                yield p
+
+
+def json_copy(x: Any) -> Any:
+    import json as _json
+    return _json.loads(_json.dumps(x))
